@@ -1,5 +1,5 @@
 SPECIFICATION Spec
-CONSTANTS NH = 2 GranE = 2 ES = 16 MaxLen = 3 MaxArg = 3 NV = 2 CTSet = {"raw", "plain", "elem", "elemB"} Prune = FALSE Api = "c" CtrMax = 3
+CONSTANTS NH = 2 GranE = 2 ES = 16 MaxLen = 2 MaxArg = 3 NV = 2 CTSet = {"raw", "plain", "elem", "elemB"} Prune = FALSE Api = "c" CtrMax = 2
 CONSTRAINT Bound
 VIEW View
 INVARIANTS TypeOK AliasOK Refines Balance AllGone
